@@ -175,6 +175,36 @@ theorem C14_kwargs_ops (txAttrs assigned extras : List String) (contained : Bool
       txAttrs ++ (if contained then ["parent"] else []) :=
   Kw.kwargs_ops txAttrs contained ops _ (C14_kwargs txAttrs assigned extras contained hn hp hpos hend ha he) ho
 
+/-- **Which keys `__init__` receives, without any assumption on user code.**  Whatever user code
+stores on or deletes from an object whose constructor is still postponed — grammar attributes and the
+`parent` of a contained object included — and whatever the grammar's attribute names are: the
+constructor receives no key twice, and a key `k` iff `k` is an attribute of the rule (or `parent`, for a
+contained object) that user code has not taken away itself (`Kw.Op.alive k true ops`: the last store /
+deletion of `k`, if any, is a store).  In particular never a name unknown to the rule, never `parent`
+on a root object.  (`C14_kwargs_ops` adds the *order* — grammar order, `parent` last — under
+`Op.harmless`; a grammar attribute that is deleted and stored again moves to the end, see the example.) -/
+theorem C14_kwargs_ops_general (txAttrs assigned extras : List String) (contained : Bool) (ops : List Kw.Op) :
+    (Kw.kwargs txAttrs contained (Kw.collectedOps txAttrs assigned contained extras ops)).Nodup ∧
+    ∀ k, k ∈ Kw.kwargs txAttrs contained (Kw.collectedOps txAttrs assigned contained extras ops) ↔
+      (k ∈ txAttrs ∨ (k = "parent" ∧ contained = true)) ∧ Kw.Op.alive k true ops = true :=
+  Kw.kwargs_ops_general txAttrs assigned extras contained ops
+
+/-- user code that is `harmless` takes nothing away: every key the constructor is owed stays alive
+(so the general form specialises to the key set of `C14_kwargs_ops`) -/
+theorem C14_kwargs_harmless_alive (txAttrs : List String) (contained : Bool) (ops : List Kw.Op) (k : String)
+    (hk : k ∈ txAttrs ∨ (k = "parent" ∧ contained = true))
+    (ho : ∀ o, o ∈ ops → o.harmless txAttrs contained) : Kw.Op.alive k true ops = true :=
+  Kw.alive_of_harmless txAttrs contained ops k true hk rfl ho
+
+/-- user code deletes the grammar attribute `val` (not `harmless`): the constructor does not get it;
+deletes it and stores it again: it gets it, after `parent` -/
+example : Kw.kwargs ["name", "val"] true (Kw.collectedOps ["name", "val"] ["name"] true [] [.del "val", .set "note"]) =
+    ["name", "parent"] := by decide
+example : Kw.kwargs ["name", "val"] true (Kw.collectedOps ["name", "val"] ["name"] true [] [.del "val", .set "val"]) =
+    ["name", "parent", "val"] := by decide
+example : Kw.Op.alive "val" true [.del "val", .set "note"] = false ∧ Kw.Op.alive "val" true [.del "val", .set "val"] = true ∧
+    Kw.Op.alive "parent" true [.set "parent", .del "parent"] = false := by decide
+
 /-- The filter of the pinned code (`k == "parent"` without asking whether the object is contained)
 passed a `parent` that user code had stored on the root object on to its constructor; the repaired
 filter does not. -/
